@@ -293,15 +293,21 @@ package internal
 //@   ensures present == has(d, "no-cache")                                   # name: present-iff
 //@   ensures present ==> string(fields) == unquote(get(d, "no-cache"))       # name: unquoted-argument
 //@   ensures !present ==> string(fields) == ""                               # name: empty-when-absent
+// meaning of a comma-separated list (RFC 9110 §5.6.1): its non-empty, trimmed elements in order
+//@ spec func csvN(s string) int
+//@ spec func csvAt(s string, k int) string
+//@ axiom csv-empty: csvN("") == 0
+//@ axiom csv-count-nonneg: forall s string :: csvN(s) >= 0
+//@ spec func seqIsCSV(q iter.Seq[string], s string) bool = seqLen(q) == csvN(s) && (forall k int :: 0 <= k && k < csvN(s) ==> seqAt(q, k) == csvAt(s, k))
 //@ func TrimmedCSVSeq
 //@   trusted
 //@   pure
-//@   ensures result != nil
+//@   ensures result != nil && seqIsCSV(result, s)
 //@ func (RawCSVSeq).Value
 //@   property C02
 //@   pure
 //@   ensures valid == (len(s) != 0)                                          # name: valid-iff-nonempty
-//@   ensures valid ==> seq != nil                                            # name: seq-non-nil
+//@   ensures valid ==> seq != nil && seqIsCSV(seq, string(s))                # name: yields-the-listed-fields
 
 // ---- logging: reads only (C10) ------------------------------------------------------
 //@ func (*Logger).LogCacheHit
@@ -538,6 +544,8 @@ package internal
 //@   ensures result0 != nil ==> result0 == old(ctx.Stored.Data) || result0 == resp                 # name: stored-or-origin-reply
 //@   ensures result0 == old(ctx.Stored.Data) && err == nil && resp.StatusCode == 304 ==> statusIs(result0.Header, "REVALIDATED", true)       # name: revalidated-marked   props: C11
 //@   ensures result0 == old(ctx.Stored.Data) && !(err == nil && resp.StatusCode == 304) ==> statusIs(result0.Header, "STALE", true) && (exists n int :: hget(result0.Header, "Age") == itoa(n) && n >= secsOf(ageIn))   # name: stale-if-error-marked   props: C11
+//@   let ncS = unquote(vs["no-cache"])
+//@   ensures result0 == old(ctx.Stored.Data) && !(err == nil && resp.StatusCode == 304) && hs["no-cache"] ==> (forall j int :: 0 <= j && j < csvN(ncS) && !cacheOwnField(canon(csvAt(ncS, j))) ==> !has(result0.Header, canon(csvAt(ncS, j))))   # name: stale-if-error-strips-no-cache-fields   props: C02
 //@   ensures result0 != nil && result0 != old(ctx.Stored.Data) ==> (cstatus(result0.Header) == "MISS" || cstatus(result0.Header) == "BYPASS") && len(get(result0.Header, "X-Httpcache-Status")) == 1 && !has(result0.Header, "X-From-Cache")   # name: origin-reply-marked   props: C11
 //@   ensures result0 == old(ctx.Stored.Data) ==> isGet && ((err == nil && resp.StatusCode == 304) || (failed && !blocked && ((ccValidA(hs, vs, "stale-if-error") && sieWithin(ageIn, life, ccDurA(vs, "stale-if-error"))) || (ccValidA(hq, vq, "stale-if-error") && sieWithin(ageIn, life, ccDurA(vq, "stale-if-error"))))))   # name: stored-only-after-304-or-stale-if-error   props: C02 C13
 
@@ -656,3 +664,17 @@ package internal
 //@   implements ResponseCache.Delete
 //@   property C07 C10
 //@   requires r != nil && r.cache != nil
+
+// ---- C02: fields named by a qualified no-cache are removed before reuse without validation ---------
+//@ spec func cacheOwnField(k string) bool = k == "Age" || k == "X-Httpcache-Status" || k == "X-From-Cache"
+//@ func StripNoCacheFields
+//@   property C02
+//@   requires h != nil
+//@   assigns map(h)
+//@   let nc = unquote(get(ccResp, "no-cache"))
+//@   rangefunc 0 invariant forall j int :: 0 <= j && j < iter ==> !has(h, canon(csvAt(nc, j)))
+//@   rangefunc 0 invariant forall k string :: !has(old(h), k) ==> !has(h, k)
+//@   rangefunc 0 invariant forall k string :: has(h, k) ==> get(h, k) == old(get(h, k))
+//@   ensures has(ccResp, "no-cache") ==> (forall j int :: 0 <= j && j < csvN(nc) ==> !has(h, canon(csvAt(nc, j))))     # name: listed-fields-removed
+//@   ensures forall k string :: !has(old(h), k) ==> !has(h, k)                                                           # name: nothing-added
+//@   ensures forall k string :: has(h, k) ==> get(h, k) == old(get(h, k))                                                # name: kept-fields-unchanged
